@@ -478,6 +478,7 @@ class ExprMixin:
             j = smt.simp(z3.If(i < 0, i + n, i))
             v = smt.simp(s[j])
             self.bound_ref(v)
+            self.json_closed(obj, v)
             return v
         lk = c.lookup('__getitem__')
         if lk and lk[0] == 'method':
